@@ -70,7 +70,7 @@ Ord(a, b, c) ==
   ELSE IF a.t = b.t /\ a.t \in {"date", "dt", "time"} THEN LexOrd(a.f, b.f)
   ELSE IF IsDurT(a.t) /\ IsDurT(b.t)
        THEN IF a.t = "ymd" /\ b.t = "ymd" THEN LexOrd(<<a.mo>>, <<b.mo>>)         \* op:yearMonthDuration-less-than
-            ELSE IF a.t = "dtd" /\ b.t = "dtd" THEN LexOrd(<<a.se>>, <<b.se>>)    \* op:dayTimeDuration-less-than
+            ELSE IF a.t = "dtd" /\ b.t = "dtd" THEN LexOrd(a.se, b.se)            \* op:dayTimeDuration-less-than (values >= 0 here)
             ELSE EqOnly(a.mo = b.mo /\ a.se = b.se)       \* op:duration-equal applies to every pair of durations
   ELSE IF a.t = "qn" /\ b.t = "qn" THEN EqOnly(a.ns = b.ns /\ a.l = b.l)          \* op:QName-equal (prefix ignored)
   ELSE IF a.t = b.t /\ a.t \in {"hex", "b64"}
@@ -235,8 +235,27 @@ Init == lhs = <<>> /\ rhs = <<>> /\ res = NoRes
 AppendL(v) == res = NoRes /\ rhs = <<>> /\ CanAppend(lhs, rhs, v) /\ lhs' = Append(lhs, v) /\ UNCHANGED <<rhs, res>>
 AppendR(v) == res = NoRes /\ CanAppend(rhs, lhs, v) /\ rhs' = Append(rhs, v) /\ UNCHANGED <<lhs, res>>
 Cmp(kind, op) == res = NoRes /\ res' = Result(kind, op, lhs, rhs) /\ lhs' = <<>> /\ rhs' = <<>>
+
+(* LONG OPERANDS.  An existential closure depends only on the SETS of items of its operands
+   (invariant InvSetBased), so the permitted outcomes of a comparison of long sequences are derived
+   from the item sets without making the long sequences states:  Pad(S, how, k) extends S to k items,
+   how = "last": by appending copies of its last item;  how = "nan": by prepending xs:double NaN.
+   CmpLong(op, how, kl, kr) is the general comparison  Pad(lhs, how, kl) op Pad(rhs, how, kr).
+   Padded operands are never a single boolean, so compatibility rule 1 is not involved. *)
+Range(S) == {S[i] : i \in 1..Len(S)}
+CloseSet(op, SA, SB, c) ==
+  Close({IF IsCompat(c) THEN PairCompat(op, a, b, c) ELSE PairGen(op, a, b, c) : a \in SA, b \in SB})
+PadSet(S, how, k) == Range(Atomize(S)) \cup (IF how = "nan" /\ k > Len(S) THEN {DbNaN} ELSE {})
+LongPool == {I1, I2, DbNaN, Unt(S_1), Str(S_abc)}
+LongLens == {<<5, 4>>, <<8, 8>>, <<17, 1>>, <<1, 17>>}        \* more than 16 pairs each
+LongOK(S) == S # <<>> /\ Len(S) <= 2 /\ \A i \in 1..Len(S) : S[i] \in LongPool
+CmpLong(op, how, kl, kr) ==
+  /\ res = NoRes /\ LongOK(lhs) /\ LongOK(rhs)
+  /\ res' = [c \in Cfgs |-> CloseSet(op, PadSet(lhs, how, kl), PadSet(rhs, how, kr), c)]
+  /\ lhs' = <<>> /\ rhs' = <<>>
 Next == \/ \E v \in Items : AppendL(v) \/ AppendR(v)
         \/ \E kind \in {"val", "gen"}, op \in Ops : Cmp(kind, op)
+        \/ \E op \in Ops, how \in {"last", "nan"}, ks \in LongLens : CmpLong(op, how, ks[1], ks[2])
 Spec == Init /\ [][Next]_vars
 
 ---------------------------------------------------------------------------
@@ -323,5 +342,16 @@ InvValue ==              \* value comparison of operands that are not singletons
        /\ ("EMPTY" \in V) = (lhs = <<>> \/ rhs = <<>>)
        /\ (Len(lhs) = 1 /\ Len(rhs) = 1 /\ lhs[1].t # "unt" /\ rhs[1].t # "unt" /\ lhs[1].t # "node" /\ rhs[1].t # "node")
              => Gen20(op, lhs, rhs, c) = V        \* typed singletons: general = value comparison
-GeneralLaws == InvExistential /\ InvIterAdmissible /\ InvConverse /\ InvMonotone /\ InvModesAgree /\ InvValue
+InvSetBased ==           \* the closure sees only the sets of items: duplicates and order are irrelevant,
+  Building => \A op \in Ops :                    \* and an added NaN never makes < <= > >= = true
+     /\ Gen20(op, Atomize(lhs), Atomize(rhs), "v20") = CloseSet(op, Range(Atomize(lhs)), Range(Atomize(rhs)), "v20")
+     /\ (~SingleBool(lhs) /\ ~SingleBool(rhs)) =>
+           GenCompat(op, lhs, rhs, "c20") = CloseSet(op, Range(Atomize(lhs)), Range(Atomize(rhs)), "c20")
+     /\ (LongOK(lhs) /\ LongOK(rhs) /\ op # "ne") =>
+           \A c \in {"v20", "c20"} :
+              LET plain == CloseSet(op, PadSet(lhs, "last", 17), PadSet(rhs, "last", 17), c)
+                  nan   == CloseSet(op, PadSet(lhs, "nan", 17), PadSet(rhs, "nan", 17), c)
+              IN /\ ("TRUE" \in nan) = ("TRUE" \in plain)
+                 /\ plain = GenAny(op, lhs, rhs, c) \/ SingleBool(lhs) \/ SingleBool(rhs)
+GeneralLaws == InvExistential /\ InvIterAdmissible /\ InvConverse /\ InvMonotone /\ InvModesAgree /\ InvValue /\ InvSetBased
 =============================================================================
